@@ -15,10 +15,16 @@ UNK = frozenset({"unknown"})
 class DType(AbsInt):
     AUG_KEEPS_VALUE = True  # numpy / torch in-place arithmetic keeps the receiver's dtype
 
-    def __init__(self, idx, operand):
+    def __init__(self, idx, operand, op_names=("self", )):
         super().__init__(idx)
         self.operand = operand
+        self.op_names = set(op_names)  # names that stand for the operator itself (`self` in methods, the first parameter of a rule)
         self.scatters = []  # (update_array call, function, buffer dtype sources, value dtype sources, sources lost)
+        self.casts = []  # (call, function, value dtype sources, target dtype sources, sources lost): explicit conversions to a dtype
+
+    def _cast(self, node, ctx, value, target):
+        lost = frozenset(self.flat(value) & {"complexified", "arg", "op"}) - self.flat(target)
+        self.casts.append((node, ctx.fi if ctx is not None else None, self.flat(value), self.flat(target), lost))
 
     def unknown(self, why=""):
         return UNK
@@ -31,7 +37,7 @@ class DType(AbsInt):
     def param(self, fi, name):
         if name == self.operand:
             return ARG
-        if name == "self":
+        if name in self.op_names:
             return OP
         return E
 
@@ -116,9 +122,17 @@ class DType(AbsInt):
         if name in ("zeros_like", "ones_like"):
             return args[0] if args else E
         if name == "cast":
-            return kwargs.get("dtype", args[1] if len(args) > 1 else UNK)
+            d = kwargs.get("dtype", args[1] if len(args) > 1 else UNK)
+            self._cast(node, ctx, args[0] if args else E, d)
+            return d
         if name == "array":
-            return kwargs.get("dtype") or (args[1] if len(args) > 1 else (args[0] if args else E))
+            d = kwargs["dtype"] if "dtype" in kwargs else (args[1] if len(args) > 1 else None)
+            if d is not None and args:
+                self._cast(node, ctx, args[0], d)
+            return d if d is not None else (args[0] if args else E)
+        if name == "eig":
+            # the eigen-decomposition of a general (non-Hermitian) matrix is complex whatever the dtype of the matrix
+            return (args[0] if args else E) | frozenset({"complexified"})
         if name == "promote_types":
             return frozenset().union(*args) if args else E
         if name == "update_array":
@@ -146,7 +160,10 @@ class DType(AbsInt):
         args = [self.flat(a) for a in args]
         if name in ("to", "astype"):
             d = kwargs.get("dtype")
-            return self.flat(d) if d is not None else (args[0] if args and name == "astype" else recv)
+            out = self.flat(d) if d is not None else (args[0] if args and name == "astype" else recv)
+            if d is not None or (args and name == "astype"):
+                self._cast(node, ctx, recv, out)
+            return out
         if name in ("_matmat", "_rmatmat"):
             return recv | (args[0] if args else E)
         if name in ("append", ):
